@@ -92,8 +92,32 @@ def load_flow(flow_config, flow_index, internal_all):
             labels[name] = len(labels)
         return labels[name]
 
+    # what a `$ref` names: an action instance (`_new_action_instance ... as $ref`: its events are UMIM
+    # action events, i.e. external) or a flow instance (`$ref = $_flow_event_ref.flow`); a name that is
+    # assigned in any other way (or in both ways) stays unknown
+    action_refs, flow_refs, other_refs = set(), set(), set()
+    for el in flow_config.elements:
+        if isinstance(el, A.SpecOp) and el.op == "_new_action_instance" and isinstance(el.spec, A.Spec) and isinstance(el.spec.ref, dict):
+            action_refs.add(el.spec.ref["elements"][0]["elements"][0].lstrip("$"))
+        elif isinstance(el, A.SpecOp) and isinstance(el.spec, A.Spec) and isinstance(el.spec.ref, dict) and el.op in ("match", "send"):
+            other_refs.add(el.spec.ref["elements"][0]["elements"][0].lstrip("$"))
+        elif isinstance(el, A.Assignment):
+            if isinstance(el.expression, str) and el.expression.strip().startswith("$") and el.expression.strip().endswith(".flow") \
+                    and el.expression.strip()[1:-5].replace("_", "a").isalnum():
+                flow_refs.add(el.key)
+            else:
+                other_refs.add(el.key)
+    params = {p.name for p in getattr(flow_config, "parameters", [])}
+    action_only = action_refs - flow_refs - other_refs - params
+    flow_only = flow_refs - action_refs - other_refs - params
+    dynamic_start = False
+    await_child = {}            # position of `match $ref.Finished()` -> (name of $ref)  [used by the deep-wait measurement]
+    ref_flow_start = {}         # flow ref name -> position of the Assignment that binds it
+
     out = []
     for el in flow_config.elements:
+        if isinstance(el, A.Assignment) and el.key in flow_only:
+            ref_flow_start[el.key] = len(out)
         if isinstance(el, A.SpecOp):
             spec = el.spec
             if not isinstance(spec, A.Spec):
@@ -109,8 +133,12 @@ def load_flow(flow_config, flow_index, internal_all):
                         out.append(("waitint", "internal" not in el.info))
                     else:
                         out.append(("block", "match"))
+                elif spec.var_name in action_only:
+                    out.append(("block", "match"))          # event of an action instance: external
                 else:
-                    out.append(("waitint", "internal" not in el.info))   # $ref.Event(): flow or action reference
+                    if spec.var_name in flow_only and spec.members and (spec.members[-1]["name"] if isinstance(spec.members[-1], dict) else spec.members[-1].name) == "Finished":
+                        await_child[len(out)] = spec.var_name
+                    out.append(("waitint", "internal" not in el.info))   # $ref.Event(): flow (or unknown) reference
             elif el.op == "send":
                 if spec.var_name is None and spec.members is None:
                     if spec.name in internal_all:
@@ -119,9 +147,13 @@ def load_flow(flow_config, flow_index, internal_all):
                             act = str(spec.arguments.get("activated", "False")) == "True"
                             out.append(("start", flow_index[fid], act))
                         else:
+                            if spec.name == "StartFlow" and fid is None:
+                                dynamic_start = True          # flow_id computed at run time
                             out.append(("step",))
                     else:
                         out.append(("block", "action"))  # action / umim event: actionable, slide stops
+                elif spec.var_name in action_only:
+                    out.append(("block", "action"))     # $action_ref.Start() / .Stop(): actionable
                 else:
                     out.append(("maybe",))              # event of a reference: internal (falls through) or action (stops)
             elif el.op == "_new_action_instance":
@@ -158,6 +190,19 @@ def load_flow(flow_config, flow_index, internal_all):
             out.append(("step",))                   # slide's final `else`: ignored, position += 1
         else:
             raise LoaderError(f"element outside the vocabulary: {type(el).__name__} in {flow_config.id}")
+    # the child flow an `await`-style wait refers to: ... start g ; (steps | flagged waits)* ; $ref = ...flow ; steps* ; match $ref.Finished()
+    awaits = {}
+    for pos, ref in await_child.items():
+        a = ref_flow_start.get(ref)
+        if a is None or a >= pos:
+            continue
+        k = a - 1
+        while k >= 0 and out[k] in (("step",), ("waitint", False)):
+            k -= 1
+        if k >= 0 and out[k][0] == "start" and all(out[j] == ("step",) for j in range(a, pos)):
+            awaits[pos] = out[k][1]
+    load_flow.last_awaits = awaits
+    load_flow.last_dynamic = dynamic_start
     return out, labels
 
 
@@ -385,7 +430,7 @@ class SlideTracer:
 
         def traced(state, flow_state, flow_config, head):
             rec = {"flow": flow_config.id, "start": head.position, "catch": list(head.catch_pattern_failure_label),
-                   "hstatus": head.status.name, "path": [], "_head": head}
+                   "hstatus": head.status.name, "path": [], "_head": head, "uid": flow_state.uid, "rtc": getattr(tracer, "rtc", 0)}
             tracer.stack.append(rec)
             q0 = len(state.internal_events)
             try:
@@ -433,7 +478,7 @@ def _flow_table(state, sm):
     tbl = {}
     for fid, fc in state.flow_configs.items():
         elems, labels = load_flow(fc, idx, set(InternalEvents.ALL))
-        tbl[fid] = {"elems": elems, "labels": labels,
+        tbl[fid] = {"elems": elems, "labels": labels, "awaits": dict(load_flow.last_awaits),
                     "label_pos": {labels[k]: v for k, v in fc.element_labels.items() if k in labels}}
     return idx, tbl
 
@@ -484,7 +529,7 @@ def slide_case_from_record(rec, tbl):
 
     return {"flow": rec["flow"], "outs": outs, "start": rec["start"], "catch": cl(rec["catch"]),
             "kind": kind, "pos": pos, "targets": targets, "steps": n, "end_catch": cl(rec["end_catch"]),
-            "path": path, "starts": starts, "merging": rec["hstatus"] == "MERGING"}
+            "path": path, "starts": starts, "merging": rec["hstatus"] == "MERGING", "uid": rec.get("uid"), "rtc": rec.get("rtc", 0)}
 
 
 class StepCounter:
@@ -559,6 +604,10 @@ def _live(state, sm):
     return sum(1 for fs in state.flow_states.values() if sm.is_listening_flow(fs))
 
 
+def _live_heads(state, sm):
+    return sum(len(fs.active_heads) for fs in state.flow_states.values() if sm.is_listening_flow(fs))
+
+
 def _mk_event(sm, ev):
     if isinstance(ev, str):
         return {"type": ev}
@@ -582,7 +631,7 @@ def run_case_direct(sm, tracer, counter, case):
         res["error"] = "loader:" + str(e)
         return res
     total = sum(len(v["elems"]) for v in tbl.values())
-    res["program"] = {fid: {"elems": v["elems"]} for fid, v in tbl.items()}
+    res["program"] = {fid: {"elems": v["elems"], "awaits": {str(k): g for k, g in v["awaits"].items()}} for fid, v in tbl.items()}
     res["flow_index"] = idx
     res["total_elems"] = total
     evs = [sm.InternalEvent(name="StartFlow", arguments={"flow_id": "main"}, matching_scores=[])] + [
@@ -590,7 +639,7 @@ def run_case_direct(sm, tracer, counter, case):
     for k, ev in enumerate(evs):
         new_event = ev
         rounds = 0
-        rec = {"steps": 0, "live": _live(state, sm), "status": "ok", "escaped": [], "out": []}
+        rec = {"steps": 0, "live": _live(state, sm), "heads": _live_heads(state, sm), "status": "ok", "escaped": [], "out": []}
         while new_event is not None:
             rounds += 1
             if rounds > 5:
@@ -600,6 +649,7 @@ def run_case_direct(sm, tracer, counter, case):
             rec["budget"] = budget
             sm._VERIF_MAX_STEPS = budget
             counter.n = 0
+            tracer.rtc = getattr(tracer, "rtc", 0) + 1
             try:
                 sm.run_to_completion(state, new_event)
                 new_event = None
@@ -711,6 +761,7 @@ def run_case_shipped(sm, case):
         fcs = create_flow_configs_from_flow_list(config.flows)
         state = State(flow_states={}, flow_configs=fcs)
         idx = {fid: i for i, fid in enumerate(fcs)}
+        res.setdefault("programs", []).append({"origin": origin, "n_flows": len(fcs), "has_main": "main" in fcs})
         for fid, fc in fcs.items():
             try:
                 sm.initialize_flow(state, fc)
@@ -722,7 +773,8 @@ def run_case_shipped(sm, case):
             except LoaderError as e:
                 res["flows"].append({"origin": origin, "flow": fid, "loader_error": str(e)})
                 continue
-            res["flows"].append({"origin": origin, "flow": fid, "elems": elems,
+            res["flows"].append({"origin": origin, "flow": fid, "elems": elems, "awaits": {str(k): g for k, g in load_flow.last_awaits.items()},
+                                 "dynamic": load_flow.last_dynamic, "root": fid == "main" or "active" in getattr(fc, "decorators", {}),
                                  "lib": bool(fc.source_file and "colang/v2_x/library" in str(fc.source_file))})
 
     for rel in case["paths"]:
@@ -1122,6 +1174,18 @@ F4_PROGRAMS = [
 ]
 
 
+# programs OUTSIDE the premise (a loop whose only waits are satisfied inside the same processing
+# step): run on every check, the outcome is recorded in the evidence, never a finding
+OBSERVE_PROGRAMS = [
+    ("implicit-loop(activate a; a: await b; b finishes at once)",
+     "flow b\n  $x = 1\n\nflow a\n  await b\n\nflow main\n  activate a\n  match X()\n"),
+    ("explicit-loop(while True: await b; b finishes at once)",
+     "flow b\n  $x = 1\n\nflow a\n  while True\n    await b\n\nflow main\n  start a\n  match X()\n"),
+    ("same-with-a-child-that-waits(activate a; a: await b; b: match E())",
+     "flow b\n  match E()\n\nflow a\n  await b\n\nflow main\n  activate a\n  match X()\n"),
+]
+
+
 # =======================================================================================
 # Generator 2: error injection at every statement position
 
@@ -1443,6 +1507,8 @@ def run(tier, seed, replay=None):
     else:
         for name, src in F4_PROGRAMS:
             cases.append({"id": "f4_" + name, "kind": "term", "src": src, "events": ["E0", "X", "E0", "E0"], "features": [name]})
+        for k, (name, src) in enumerate(OBSERVE_PROGRAMS):
+            cases.append({"id": f"observe{k}", "kind": "observe", "name": name, "src": src, "events": ["E", "E", "X"]})
     term_cases = gen_term_cases(rng, n_term, features) if n_term else []
     cases += term_cases
     total_inj = 0
@@ -1467,12 +1533,14 @@ def run(tier, seed, replay=None):
 
     # ---- shipped flows
     shipped = []
+    ship_programs = []
     ship_skipped = []
     for c in ship_cases:
         r = results.get(c["id"], {})
         if r.get("error") or r.get("hang") or r.get("crash"):
             out.add_broken("translator:shipped-flows", json.dumps(r)[:1500])
         shipped += r.get("flows", [])
+        ship_programs += r.get("programs", [])
         ship_skipped += r.get("skipped", [])
     loader_errors = [f for f in shipped if "loader_error" in f]
     for f in loader_errors[:1]:
@@ -1496,6 +1564,7 @@ def run(tier, seed, replay=None):
             findings[sig] = (w, p0, n + 1)
 
     restart_obs = {}
+    observations = {}
     for c in cases:
         r = results.get(c["id"], {"error": "missing"})
         kind = c.get("kind", "term")
@@ -1542,6 +1611,9 @@ def run(tier, seed, replay=None):
                 add_finding(sig, f"run_to_completion does not terminate ({bad}); premise holds: every loop/recursion contains a waiting statement",
                             {"kind": "term", "src": c["src"], "events": c["events"], "observed": bad,
                              "instances_per_flow": {k: len(v) for k, v in r.get("flows", {}).items()}})
+        elif kind == "observe":
+            observations[c["name"]] = ("does not terminate (step budget exceeded)" if any(e["status"] == "budget" for e in r.get("events", []))
+                                       else "hang" if r.get("hang") else "terminates" if not r.get("error") else r.get("error"))
         elif kind == "scenario":
             for what, det in scenario_verdict(c, r):
                 if what == "harness-error":
@@ -1692,7 +1764,7 @@ def run(tier, seed, replay=None):
 
     # ---- correspondence 3: the cascade bound of the model dominates the observed event counts
     t1 = time.time()
-    bound_stats = check_bounds(out, bound_cases, defs, names) if okm else {}
+    bound_stats = check_bounds(out, bound_cases, defs, names, shipped, ship_programs, quick) if okm else {}
     t_bound = round(time.time() - t1, 1)
 
     out.coverage.update({
@@ -1711,6 +1783,7 @@ def run(tier, seed, replay=None):
             "shipped_skipped": len(ship_skipped), "shipped_skipped_reasons": sorted({s[1].split(':')[0] for s in ship_skipped}),
             "shipped_unguarded_flows": shipped_unguarded[:20], "flows_checked_by_guardedb": len(g_terms), "unguarded_flows": len(unguarded),
             "cascade_bound": bound_stats, "restart_decisions": restart_stats,
+            "observations_outside_the_premise": observations,
         },
         "traces_validated_against_impl": len(slide_terms),
         "correspondence_disagreements": len(slide_bad) + len(g_bad),
@@ -1733,12 +1806,140 @@ def run(tier, seed, replay=None):
     return C.finish(out)
 
 
-def check_bounds(out, bound_cases, defs, names):
-    """Correspondence 3: for the generated programs inside the class of C10_rtc_bound_partial the
-    number of internal events processed by every real run_to_completion is dominated by the
-    model's bound (evaluated inside Coq from the REAL loaded program)."""
-    terms, kept = [], []
-    seen = set()
+def deep_flows(flows):
+    """flows: list of (elems, awaits {pos: child flow index}).  Greatest set D of flow indices such that
+    an instance of a flow in D cannot reach its end (nor rest on another user-level match for an
+    internal event) without resting on a match for an external event or on an await of a child in D.
+    Used ONLY for the measurement `with_deep_wait_lemma` (the lemma itself is not machine-checked)."""
+    deep = set(range(len(flows)))
+    changed = True
+    while changed:
+        changed = False
+        for g in sorted(deep):
+            elems, awaits = flows[g]
+            n = len(elems)
+            tbl = label_table(elems)
+            seen = {(1, ())}
+            todo = [(1, ())]
+            ok = True
+            while todo and ok:
+                p, stack = todo.pop()
+                if p >= n or elems[p] == ("return",) or len(seen) > 40 * (n + 1):
+                    ok = False
+                    break
+                t = elems[p]
+                if t == ("block", "match") or (p in awaits and awaits[p] in deep):
+                    continue
+                if t[0] == "waitint" and t[1]:
+                    ok = False
+                    break
+                nxt = []
+                for o in (True, False):
+                    r = py_exec(elems, tbl, p, stack, o)
+                    nxt += [(r[1], r[2])] if r[0] == "cont" else r[1]
+                for c in nxt:
+                    if c not in seen:
+                        seen.add(c)
+                        todo.append(c)
+            if not ok:
+                deep.discard(g)
+                changed = True
+    return deep
+
+
+def deep_transform(flows):
+    deep = deep_flows(flows)
+    outp = []
+    n_waits = 0
+    for elems, awaits in flows:
+        e2 = list(elems)
+        for p, g in awaits.items():
+            if g in deep:
+                e2[p] = ("block", "match")
+                n_waits += 1
+        outp.append(e2)
+    return outp, deep, n_waits
+
+
+def prune_reachable(flows, roots):
+    """flows: list of dicts with elems (tuples), awaits, dynamic.  Keeps the flows reachable from the
+    roots over constant StartFlow sends and renumbers flow ids; None if a reachable flow starts flows
+    whose name is computed at run time (then every flow may get instances)."""
+    reach, todo = set(roots), list(roots)
+    while todo:
+        g = todo.pop()
+        if flows[g].get("dynamic"):
+            return None
+        for e in flows[g]["elems"]:
+            if e[0] == "start" and e[1] not in reach and e[1] < len(flows):
+                reach.add(e[1])
+                todo.append(e[1])
+    order = sorted(reach)
+    ren = {g: i for i, g in enumerate(order)}
+    outp = []
+    for g in order:
+        elems = [("start", ren[e[1]], e[2]) if e[0] == "start" else e for e in flows[g]["elems"]]
+        awaits = {p: ren[c] for p, c in flows[g].get("awaits", {}).items() if c in ren}
+        outp.append((elems, awaits))
+    return outp
+
+
+def run_nat_cases(tag, defs, terms, fn, shard=10, timeout=900, tolerate_timeout=False):
+    """Like run_cases_defs for a Coq function returning nat; returns (list of int, error)."""
+    import re as _re
+    import shutil
+    from concurrent.futures import ThreadPoolExecutor
+
+    d = os.path.join(C.BUILD, "cases", tag)
+    shutil.rmtree(d, ignore_errors=True)
+    os.makedirs(d)
+    shards = [terms[i:i + shard] for i in range(0, len(terms), shard)]
+
+    def one(ix):
+        i, sh_terms = ix
+        used = sorted(set(_re.findall(r"fl_\d+", " ".join(sh_terms))), key=lambda n: int(n[3:]))
+        p = os.path.join(d, f"Cases_{i}.v")
+        with open(p, "w", encoding="latin-1") as f:
+            f.write(PREAMBLE + "\n".join(defs[n] for n in used) + "\n")
+            f.write("Definition cases := [\n  " + ";\n  ".join(sh_terms) + "\n].\n")
+            f.write(f"Eval vm_compute in (List.map ({fn}) cases).\n")
+        rc, out = C.sh(["coqc", "-Q", os.path.join(C.COQ, "theories"), "NG", "-w", "-notation-overridden", "-o", p[:-2] + ".vo", p],
+                       cwd=d, timeout=timeout)
+        if rc == 124 and tolerate_timeout:
+            return [-1] * len(sh_terms), None
+        if rc != 0:
+            return None, f"coqc failed on {p}: {out[-1500:]}"
+        m = _re.search(r"=\s*\[(.*?)\]\s*:\s*list nat", out, _re.S)
+        if not m:
+            return None, f"cannot parse coqc output of {p}: {out[-800:]}"
+        vals = [int(t.strip()) for t in m.group(1).split(";") if t.strip()]
+        if len(vals) != len(sh_terms):
+            return None, f"{p}: {len(vals)} results for {len(sh_terms)} cases"
+        return vals, None
+
+    res = []
+    with ThreadPoolExecutor(max_workers=C.NPROC) as ex:
+        outs = list(ex.map(one, list(enumerate(shards))))
+    for vals, err in outs:
+        if err:
+            return res, err
+        res += vals
+    return res, None
+
+
+REASONS = {1: "cycle-without-external-match-or-inconsistent-stacks", 2: "no-weights(StartFlow-cycle-without-external-match)",
+           3: "side-conditions-for-activated-flows"}
+
+
+def check_bounds(out, bound_cases, defs, names, shipped, ship_programs, quick):
+    """Correspondence 3: for the programs inside the class of C10_rtc_bound_partial (incl. fork /
+    merge programs) the number of internal events processed by every real run_to_completion is
+    dominated by the model's bound (evaluated inside Coq from the REAL loaded program).  Also
+    measures which fraction of the generated and of the shipped programs the certificate
+    accepts, and why it rejects the others."""
+    import re as _re
+
+    per_prog = {}
     for cid, r in bound_cases:
         idx = r["flow_index"]
         order = sorted(idx, key=lambda k: idx[k])
@@ -1746,33 +1947,125 @@ def check_bounds(out, bound_cases, defs, names):
             prog = C.coq_list([names[json.dumps(r["program"][fid]["elems"])] for fid in order])
         except KeyError:
             continue
-        obs = [(e["live"], e["steps"]) for e in r["events"]]
-        key = (prog, tuple(obs))
-        if key in seen:
-            continue
-        seen.add(key)
-        terms.append("({p}, {o})".format(p=prog, o=C.coq_list([f"({a}, {b})" for a, b in obs])))
-        kept.append((cid, prog, obs))
-    stats = {"programs": len(terms)}
-    if not terms:
+        obs = [(e.get("heads", e["live"]), e["live"], e["steps"]) for e in r["events"]]
+        ent = per_prog.setdefault(prog, {"obs": set(), "cid": cid})
+        ent["obs"].update(obs)
+    stats = {"programs": len(bound_cases), "generated_distinct_programs": len(per_prog)}
+    if not per_prog:
         return stats
-    progs = sorted({k[1] for k in kept})
-    inb, err = run_cases_defs(PID + "_class", defs, progs, "in_class", shard=15)
+    progs = sorted(per_prog)
+    terms = ["({p}, {o})".format(p=p, o=C.coq_list([f"({a}, {b}, {c})" for a, b, c in sorted(per_prog[p]["obs"])]) if per_prog[p]["obs"] else "(@nil (nat * nat * nat))")
+             for p in progs]
+    codes, err = run_nat_cases(PID + "_classify", defs, terms, "(classify_n 8)", shard=8)
     if err:
         out.add_broken("correspondence:C10-bound(coqc)", err)
         return stats
-    in_class = {p for p, ok in zip(progs, inb) if ok}
-    stats["programs_in_model_class"] = sum(1 for k in kept if k[1] in in_class)
-    bools, err = run_cases_defs(PID + "_bound", defs, terms, "check_bound", shard=15)
-    if err:
-        out.add_broken("correspondence:C10-bound(coqc)", err)
-        return stats
-    bad = [k for ok, k in zip(bools, kept) if not ok]
+    acc = [p for p, k in zip(progs, codes) if k in (0, 100)]
+    stats["generated_accepted_by_cascade_cert_ok"] = len(acc)
+    stats["generated_accepted_with_fork"] = sum(1 for p in acc if any("EFork" in defs[n] for n in _re.findall(r"fl_\d+", p)))
+    stats["generated_with_fork"] = sum(1 for p in progs if any("EFork" in defs[n] for n in _re.findall(r"fl_\d+", p)))
+    stats["generated_rejected_why"] = {name: sum(1 for k in codes if k == code) for code, name in REASONS.items()}
+    stats["max_observed_steps_in_class"] = max([c for p in acc for _a, _b, c in per_prog[p]["obs"]], default=0)
+    bad = [p for p, k in zip(progs, codes) if k == 100]
     stats["bound_violations"] = len(bad)
-    stats["max_observed_steps_in_class"] = max([b for k in kept if k[1] in in_class for _a, b in k[2]], default=0)
     if bad:
-        cid, prog, obs = bad[0]
-        out.add_broken("correspondence:C10-bound", f"{len(bad)} programs: a real run_to_completion processed more internal events than 2*rtc_bound+2 of the model; e.g. case {cid} observations (live, steps) = {obs}")
+        p = bad[0]
+        out.add_broken("correspondence:C10-bound", f"{len(bad)} programs: a real run_to_completion processed more internal events than 2*rtc_bound+2 of the model; e.g. case {per_prog[p]['cid']} observations (heads, live, steps) = {sorted(per_prog[p]['obs'])}")
+    # ---- measurement "with the deep-wait lemma" (NOT machine-checked): an `await g` whose child g cannot
+    # finish without resting on a match for an external event is treated like such a match
+    def norm(elems):
+        o = []
+        for e in elems:
+            e = tuple(e)
+            o.append(("fork", list(e[1])) if e[0] == "fork" else e)
+        return o
+
+    def add_def(elems):
+        key = json.dumps([list(e) if e[0] != "fork" else ["fork", list(e[1])] for e in elems])
+        if key not in names:
+            names[key] = f"fl_{len(names)}"
+            defs[names[key]] = f"Definition {names[key]} : list elem := {coq_elems(elems)}."
+        return names[key]
+
+    lemma_checks = lemma_viol = 0
+    deep_terms = {}
+    for cid, r in bound_cases:
+        idx = r["flow_index"]
+        order = sorted(idx, key=lambda k: idx[k])
+        flows = [(norm(r["program"][fid]["elems"]), {int(k): g for k, g in r["program"][fid].get("awaits", {}).items()}) for fid in order]
+        tr, deep, nw = deep_transform(flows)
+        if nw:
+            deep_terms[C.coq_list([add_def(e) for e in tr])] = cid
+            # the lemma on the traced run: a head that came to rest on such an await is not advanced in the same run_to_completion
+            pos_of = {fid: {p for p, g in flows[idx[fid]][1].items() if g in deep} for fid in order}
+            sl = r.get("slides", [])
+            for k, sc in enumerate(sl):
+                if sc["kind"] == 0 and sc["pos"] in pos_of.get(sc["flow"], ()):
+                    lemma_checks += 1
+                    if any(s2.get("uid") == sc.get("uid") and s2.get("rtc") == sc.get("rtc") and s2["start"] == sc["pos"] + 1 for s2 in sl[k + 1:]):
+                        lemma_viol += 1
+    if deep_terms:
+        dts = sorted(deep_terms)
+        dcodes, err = run_nat_cases(PID + "_classify_deep", defs, ["(%s, (@nil (nat * nat * nat)))" % t for t in dts], "(classify_n 8)", shard=8)
+        if not err:
+            stats["with_deep_wait_lemma(not machine-checked)"] = {
+                "generated_programs_with_such_awaits": len(dts),
+                "accepted_after_treating_them_as_external_waits": sum(1 for k in dcodes if k == 0),
+                "lemma_checked_on_traced_heads": lemma_checks, "lemma_violations_in_traces": lemma_viol}
+    # shipped programs: one program per configuration whose flows were all loaded
+    by_origin = {}
+    for f in shipped:
+        by_origin.setdefault(f["origin"], []).append(f)
+    sprogs = {}
+    origin_flows = {}
+    n_pruned = n_dynamic = 0
+    for pr in ship_programs:
+        fl = by_origin.get(pr["origin"], [])
+        if len(fl) != pr["n_flows"] or any("elems" not in f for f in fl) or not pr.get("has_main"):
+            continue
+        # the program = the flows that can get instances: reachable from main / @active flows
+        full = [{"elems": norm(f["elems"]), "awaits": {int(k): g for k, g in f.get("awaits", {}).items()}, "dynamic": f.get("dynamic")} for f in fl]
+        pruned = prune_reachable(full, [i for i, f in enumerate(fl) if f.get("root")])
+        if pruned is None:
+            n_dynamic += 1
+            pruned = [(f["elems"], f["awaits"]) for f in full]
+        elif len(pruned) < len(full):
+            n_pruned += 1
+        term = C.coq_list([add_def(e) for e, _a in pruned])
+        sprogs.setdefault(term, []).append(pr["origin"])
+        origin_flows[term] = pruned
+    stats["shipped_programs_pruned_to_reachable_flows"] = n_pruned
+    stats["shipped_programs_with_dynamic_flow_starts(not pruned)"] = n_dynamic
+    sl = sorted(sprogs, key=lambda t: (t.count("fl_"), t))
+    stats["shipped_distinct_complete_programs_with_main"] = len(sl)
+    if quick and len(sl) > 12 and not os.environ.get("C10_SHIP_ALL"):
+        step = len(sl) / 12.0
+        sl = [sl[int(i * step)] for i in range(12)]
+    if sl:
+        codes, err = run_nat_cases(PID + "_classify_ship", defs, ["(%s, (@nil (nat * nat * nat)))" % t for t in sl], "(classify_n 10)", shard=1,
+                                   timeout=150 if quick else 600, tolerate_timeout=True)
+        if err:
+            out.add_broken("correspondence:C10-class-shipped(coqc)", err)
+        else:
+            stats["shipped_programs_evaluated"] = sum(1 for k in codes if k >= 0)
+            stats["shipped_programs_not_evaluated(timeout)"] = sum(1 for k in codes if k < 0)
+            stats["shipped_accepted_by_cascade_cert_ok"] = sum(1 for k in codes if k == 0)
+            stats["shipped_rejected_why"] = {name: sum(1 for k in codes if k == code) for code, name in REASONS.items()}
+            stats["shipped_sizes_evaluated(flows)"] = [t.count("fl_") for t in sl]
+            stats["shipped_rejected_examples"] = [sprogs[t][0] + ":" + REASONS[k] for t, k in zip(sl, codes) if k in REASONS][:8]
+            # the same measurement with the deep-wait lemma for the rejected shipped programs
+            rej = [t for t, k in zip(sl, codes) if k in REASONS]
+            dts = []
+            for t in rej:
+                tr, deep, nw = deep_transform(origin_flows[t])
+                dts.append(C.coq_list([add_def(e) for e in tr]))
+            if dts:
+                dcodes, err2 = run_nat_cases(PID + "_classify_ship_deep", defs, ["(%s, (@nil (nat * nat * nat)))" % t for t in dts], "(classify_n 10)",
+                                             shard=1, timeout=150 if quick else 600, tolerate_timeout=True)
+                if not err2:
+                    stats["shipped_with_deep_wait_lemma(not machine-checked)"] = {
+                        "rejected_programs_re-evaluated": len(dts), "additionally_accepted": sum(1 for k in dcodes if k == 0),
+                        "still_rejected_why": {name: sum(1 for k in dcodes if k == code) for code, name in REASONS.items()}}
     return stats
 
 
